@@ -55,6 +55,7 @@ MonInit(p) ==
    gapIn |-> 0,          \* inputs arrived since the last tick
    used |-> FALSE,       \* an other key was pressed since the activation (press variants)
    afterAct |-> {},      \* other keys pressed after the activation and still down (release variants)
+   maybeAct |-> {},      \* other keys that may or may not count as pressed after the current activation (see MonIn)
    ended |-> "yes",      \* "yes": the one-shot must not modify keys arriving from now on;
                          \* "no": it is active; "maybe": outside the sharp zone, unknown
    plain |-> {},         \* held one-shot keys whose current press acts as a plain key (O5)
@@ -80,6 +81,7 @@ MonIn(m, r) ==
                  \* press is processed on the tick the previous activation expires: a fresh activation
                  LET over == m.ended = "yes" \/ (m.sharp /\ ~m.used /\ m.el >= p.T)
                      repress == IsPcancel(p) /\ i \in m.chain /\ ~over
+                     surelyExt == ~over /\ m.rsharp /\ m.ended = "no" /\ m.rel + m.lagq < p.T
                  IN
                  IF repress
                  THEN [m0 EXCEPT !.held = @ \cup {i}, !.sharp = FALSE, !.el = 0, !.plain = @ \ {i}, !.rsharp = FALSE,
@@ -89,7 +91,13 @@ MonIn(m, r) ==
                                  !.rsharp = IF over THEN m.lastIdle /\ m.quiet > p.red /\ m.pend = <<>> /\ m.lagq = 0
                                             ELSE m.rsharp,
                                  !.chain = IF over THEN {i} ELSE @ \cup {i},
-                                 !.el = 0, !.ended = "no", !.used = FALSE, !.afterAct = {},
+                                 \* keys pressed since the activation began stay "after the activation" when a further
+                                 \* one-shot key certainly extends it (their release still ends a release-variant one-shot);
+                                 \* when the previous activation may have expired before this press is processed (a fresh
+                                 \* activation forgets them) they become uncertain
+                                 !.el = 0, !.ended = "no", !.used = FALSE,
+                                 !.afterAct = IF over \/ ~surelyExt THEN {} ELSE @,
+                                 !.maybeAct = IF over THEN {} ELSE IF surelyExt THEN @ ELSE @ \cup m.afterAct,
                                  !.sharp = IF over
                                            THEN m.lastIdle /\ m.quiet > p.red /\ m.pend = <<>> /\ inSync
                                            ELSE m.sharp /\ inSync]
@@ -108,8 +116,10 @@ MonIn(m, r) ==
                ELSE m1
        ELSE \* release of an other key
             IF ~IsPress(p) /\ r.c \in m.afterAct /\ m.ended # "yes"
-            THEN [m0 EXCEPT !.ended = "yes", !.afterAct = {}, !.sharp = FALSE, !.rsharp = FALSE]
-            ELSE [m0 EXCEPT !.afterAct = @ \ {r.c}, !.sharp = FALSE]
+            THEN [m0 EXCEPT !.ended = "yes", !.afterAct = {}, !.maybeAct = {}, !.sharp = FALSE, !.rsharp = FALSE]
+            ELSE IF ~IsPress(p) /\ r.c \in m.maybeAct /\ m.ended = "no"
+            THEN [m0 EXCEPT !.ended = "maybe", !.maybeAct = @ \ {r.c}, !.sharp = FALSE, !.rsharp = FALSE]
+            ELSE [m0 EXCEPT !.afterAct = @ \ {r.c}, !.maybeAct = @ \ {r.c}, !.sharp = FALSE]
 
 RECURSIVE Scan(_, _)
 Scan(m, out) ==
@@ -164,6 +174,7 @@ MonTick(m, out, idle, cb) ==
                   !.rsharp = m2.rsharp /\ ~expired /\ ~stable,
                   !.ended = IF expired \/ stable THEN "yes" ELSE m2.ended,
                   !.chain = IF expired \/ stable THEN {} ELSE m2.chain,
+                  !.maybeAct = IF expired \/ stable THEN {} ELSE m2.maybeAct,
                   !.quiet = IF out = <<>> THEN OMin(m2.quiet + 1, p.red + 1) ELSE 0]
 
 RECURSIVE MonSilent(_, _, _, _)
